@@ -28,7 +28,8 @@ CONSTANTS ShapeIds,   \* subset of DOMAIN ShapeTab \cup DOMAIN MissingTab: ALL c
           MaxDepth,   \* histories of at most this many operations
           MaxLen,     \* concatenation / sampling never grows an alignment beyond this many columns
           Forms,      \* spellings of slice arguments: subset of {"plain","open","neg","over"}
-          PairFamily  \* "cuts" or "all": which pairs of slices of ONE object are concatenated (ConcatSlices)
+          PairFamily, \* "cuts" or "all": which pairs of slices of ONE object are concatenated (ConcatSlices)
+          ColFamily   \* "small" or "tuples": whether take_positions also gets every ordered / repeating index tuple
 
 VARIABLES kind, mol, rows, base, depth
 vars == <<kind, mol, rows, base, depth>>
@@ -167,8 +168,23 @@ ColLists(n) ==
     {<<i>> : i \in 0..(n - 1)} \cup {<<>>, Rev(Range0(0, n)), StrideIdx(0, n, 2), StrideIdx(1, n, 2)}
     \cup (IF n >= 2 THEN {<<n - 1, 0>>, <<0, 0>>} ELSE {})
 
+(* ORDERED index sequences for take_positions: every tuple of length 3 (with repeats) over a   *)
+(* window of columns and every permutation of (up to) 4 columns -- the requested order and      *)
+(* multiplicity of columns must be honoured: result row = <<row[c] : c in cols>> in that order. *)
+Injective(f) == \A i, j \in DOMAIN f : f[i] = f[j] => i = j
+ColTuplesTab ==
+    [n \in 0..MaxLen |->
+        IF ColFamily = "small" \/ n = 0 THEN {}
+        ELSE LET W == IF n <= 4 THEN {0..(n - 1)} ELSE {0..2, (n - 3)..(n - 1)}
+                 PS == IF n <= 4 THEN 0..(n - 1) ELSE 1..4
+             IN UNION {[1..3 -> w] : w \in W} \cup {f \in [1..Cardinality(PS) -> PS] : Injective(f)}]
+ColTuples(n) == IF n \in 0..MaxLen THEN ColTuplesTab[n] ELSE {}
+(* the container the index sequence is handed over in (same meaning): list, tuple, numpy array *)
+ColForms == <<"list", "tuple", "array">>
+ColForm(cols) == ColForms[((Len(cols) + (IF Len(cols) > 0 THEN cols[1] + 2 * cols[Len(cols)] ELSE 0)) % 3) + 1]
+
 RowLists(r) ==   \* positions of the current rows, in the order requested
-    {<<i>> : i \in 1..r} \cup {<<x[1], x[2]>> : x \in {y \in (1..r) \X (1..r) : y[1] # y[2]}} \cup {Rev(Range0(1, r + 1))}
+    {<<i>> : i \in 1..r} \cup {<<x[1], x[2]>> : x \in {y \in (1..r) \X (1..r) : y[1] # y[2]}} \cup {f \in [1..r -> 1..r] : Injective(f)}     \* every order of all rows
 RowSets(r) == {{}} \cup {{i} : i \in 1..r} \cup {1..r}
 
 (* pairs <<a,b,c,d>> of slices [a:b], [c:d] of the same object, for x[a:b] + x[c:d].        *)
@@ -184,7 +200,9 @@ SliceQuads(n) ==
                           /\ (x[2] = x[3] \/ x[4] = x[1] \/ x[4] = x[1] + 1 \/ x[4] + 1 = x[1])}
 
 ReplLocs(p) == IF p = 0 THEN {} ELSE {<<p - 1, 0, 0>>, <<0>>} \cup (IF p >= 2 THEN {<<1, 1>>} ELSE {})
+                                       \cup (IF p >= 3 THEN {<<0, 2, 1>>, <<0, 1, 1, 2>>} ELSE {})   \* interior permuted / repeated
 Perms(p) == IF p = 0 THEN {} ELSE {Rev(Range0(0, p)), [k \in 1..p |-> k % p]}
+                                  \cup (IF p >= 3 THEN {[k \in 1..p |-> IF k = 2 THEN 2 ELSE IF k = 3 THEN 1 ELSE k - 1]} ELSE {})  \* 0,2,1,3,..
 
 Nucleic == mol \in {"dna", "rna"}
 N == NCols(rows)
@@ -228,10 +246,10 @@ Stride(a, k) == StrideT(a, k) /\ Log("Stride", <<a, k>>)
 RcT == (Aln \/ Coll) /\ Nucleic /\ Set(kind, mol, RcRows(rows, mol))
 Rc == RcT /\ Log("Rc", <<>>)
 
-TakePositionsT(cols, neg) ==
-    /\ Aln /\ SeqRange(cols) \subseteq 0..(N - 1)
+TakePositionsT(cols, neg, form) ==
+    /\ Aln /\ SeqRange(cols) \subseteq 0..(N - 1) /\ form \in SeqRange(ColForms)
     /\ Set("aln", mol, IF neg THEN DropCols(rows, SeqRange(cols)) ELSE TakeCols(rows, cols))
-TakePositions(cols, neg) == TakePositionsT(cols, neg) /\ Log("TakePositions", <<cols, neg>>)
+TakePositions(cols, neg, form) == TakePositionsT(cols, neg, form) /\ Log("TakePositions", <<cols, neg, form>>)
 
 (* take_seqs(names): rows in the order given; nothing left -> {} *)
 TakeSeqsT(ix) == /\ (Aln \/ Coll) /\ Len(ix) >= 1 /\ SeqRange(ix) \subseteq 1..R /\ Cardinality(SeqRange(ix)) = Len(ix)
@@ -313,7 +331,8 @@ Next ==
     \/ \E i \in 0..MaxLen, f \in Forms : Index(i, f)
     \/ \E a \in {0, 1} \cap (0..N), k \in {0, 2} : Stride(a, k)
     \/ Rc
-    \/ \E cols \in ColLists(N), neg \in BOOLEAN : TakePositions(cols, neg)
+    \/ \E cols \in ColLists(N), neg \in BOOLEAN : TakePositions(cols, neg, ColForm(cols))
+    \/ \E cols \in ColTuples(N) : TakePositions(cols, FALSE, ColForm(cols))
     \/ \E ix \in RowLists(R) : TakeSeqs(ix)
     \/ \E ixs \in RowSets(R) : TakeSeqsNeg(ixs)
     \/ \E thr \in Thresholds, ml \in {1, 2} : (ml = 2 => thr \in {<<0, 1>>, <<1, 2>>, <<999999, 1000000>>}) /\ OmitGapPos(thr, ml)
